@@ -118,7 +118,7 @@ def gen_plan(rng, family):
         elif rng.random() < 0.12:
             # a shrink by more workers than the call queue has slots (2 * cpu_count() + 1 = 5 in the simulation)
             plan["workers"] = rng.choice([7, 8])
-            plan["timeout"] = 10
+            plan["timeout"] = None          # no idle time-out: every worker is still there when the resize looks
             plan["kill_budget"] = 0
             plan["threads"] = [[["submit", "value"]] * rng.randint(0, 2) + [["resize", 1], ["submit", "value"]]]
     elif family == "reuse":                     # C09: histories of factory calls, breakages, shutdowns, from 1..3 threads
